@@ -101,7 +101,7 @@ def run(v):
             "--sessions", 2000 if thorough else 150, "--glue-families", 600 if thorough else 150, "--family-sentences", 646 if thorough else 80, "--thread-docs", 2000 if thorough else 200]
     rc, out, err = common.run_hv(args, timeout=7200)
     if rc != 0:
-        raise common.ToolError("hv c05 failed: " + err[-2000:])
+        raise common.ToolError("hv c05 failed rc=%s: " % rc + err[-2000:])
     # second process: same documents, compared by digest
     trace2 = os.path.join(wd, "trace2.ndjson")
     rc, out, err = common.run_hv(["c05", "--out", trace2, "--seed", v.seed, "--corpus", corp, "--sessions", 0,
